@@ -10,6 +10,18 @@ EXITSTACK-CALLBACK
                                           <body of F>      (F a nested def without return/params)
                                           or F(*args)       (any other callable)
 
+CONTEXTMANAGER-INLINE
+    @contextmanager                      with H(a):            [pre, p := a, locals renamed]
+    def H(p):                                BODY        =>    try:
+        [pre]                                                      BODY
+        try:                                                   finally:
+            yield                                                  [post, p := a]
+        finally:
+            [post]
+    H is a module-level generator decorated with contextmanager whose body is simple statements
+    followed by one try/finally around a bare `yield`; the with-item has no `as` target and its
+    arguments are plain names. (A save/restore pair moved into such a helper is the same code.)
+
 A with-block whose ExitStack is used for anything else (enter_context, push, pop_all, close,
 passing S somewhere) is left untouched. Several callbacks nest in LIFO order, as ExitStack runs
 them. Line numbers are copied from the replaced nodes.
@@ -122,8 +134,85 @@ class _ExitStack(ast.NodeTransformer):
         return build(node.body)
 
 
+def _cm_helpers(tree: ast.Module) -> dict[str, ast.FunctionDef]:
+    out: dict[str, ast.FunctionDef] = {}
+    for st in tree.body:
+        if not isinstance(st, ast.FunctionDef):
+            continue
+        decs = [ast.unparse(d).split('(')[0].split('.')[-1] for d in st.decorator_list]
+        if 'contextmanager' not in decs or not st.body:
+            continue
+        body = [b for b in st.body if not (isinstance(b, ast.Expr)
+                                           and isinstance(b.value, ast.Constant))]
+        if not body or not isinstance(body[-1], ast.Try):
+            continue
+        tr = body[-1]
+        if tr.handlers or tr.orelse or not tr.finalbody or len(tr.body) != 1:
+            continue
+        y = tr.body[0]
+        if not (isinstance(y, ast.Expr) and isinstance(y.value, ast.Yield)
+                and y.value.value is None):
+            continue
+        if any(isinstance(x, (ast.Yield, ast.YieldFrom, ast.Return))
+               for b in body[:-1] + tr.finalbody for x in ast.walk(b)):
+            continue
+        a = st.args
+        if a.vararg or a.kwarg or a.kwonlyargs or a.defaults:
+            continue
+        out[st.name] = st
+    return out
+
+
+class _InlineCM(ast.NodeTransformer):
+    def __init__(self, helpers: dict[str, ast.FunctionDef]) -> None:
+        self.helpers = helpers
+
+    def visit_With(self, node: ast.With):      # noqa: N802
+        self.generic_visit(node)
+        if len(node.items) != 1 or node.items[0].optional_vars is not None:
+            return node
+        call = node.items[0].context_expr
+        if not (isinstance(call, ast.Call) and isinstance(call.func, ast.Name)
+                and call.func.id in self.helpers and not call.keywords
+                and all(isinstance(x, ast.Name) for x in call.args)):
+            return node
+        h = self.helpers[call.func.id]
+        params = [p.arg for p in h.args.posonlyargs + h.args.args]
+        if len(params) != len(call.args):
+            return node
+        ren = {p: x.id for p, x in zip(params, call.args)}      # type: ignore[attr-defined]
+        body = [b for b in h.body if not (isinstance(b, ast.Expr)
+                                          and isinstance(b.value, ast.Constant))]
+        tr = body[-1]
+        assigned = {t.id for b in body[:-1] + tr.finalbody for x in ast.walk(b)
+                    if isinstance(x, ast.Name) and isinstance(x.ctx, ast.Store)
+                    for t in [x]}
+        for nm in assigned:
+            if nm not in ren:
+                ren[nm] = f'_cm_{nm}_{node.lineno}'
+
+        def clone(stmts: list[ast.stmt]) -> list[ast.stmt]:
+            out = []
+            for st in stmts:
+                c = copy.deepcopy(st)
+                for x in ast.walk(c):
+                    if isinstance(x, ast.Name) and x.id in ren:
+                        x.id = ren[x.id]
+                    if hasattr(x, 'lineno'):
+                        x.lineno = node.lineno
+                        x.end_lineno = node.lineno
+                out.append(c)
+            return out
+        t = ast.Try(body=node.body, handlers=[], orelse=[], finalbody=clone(tr.finalbody))
+        ast.copy_location(t, node)
+        return clone(body[:-1]) + [t]
+
+
 def desugar(tree: ast.Module) -> ast.Module:
     tr = _ExitStack()
     tree.body = tr._visit_block(tree.body)
+    helpers = _cm_helpers(tree)
+    if helpers:
+        tree = _InlineCM(helpers).visit(tree)
     ast.fix_missing_locations(tree)
     return tree
